@@ -40,6 +40,11 @@ Exec(cs, gm, reqs, i, acc, gc) ==
 RECURSIVE AddAll(_, _, _)
 AddAll(s, ins, i) == IF i > Len(ins) THEN s ELSE AddAll(ST_AddLocalInput(s, ins[i][1], ins[i][2])[1], ins, i + 1)
 
+RECURSIVE AddResults(_, _, _)
+AddResults(s, ins, i) ==
+  IF i > Len(ins) THEN <<>>
+  ELSE LET a == ST_AddLocalInput(s, ins[i][1], ins[i][2]) IN <<a[2]>> \o AddResults(a[1], ins, i + 1)
+
 QSnap(q) ==
   [ head |-> q.head, tail |-> q.tail, length |-> q.length, first_frame |-> q.first_frame,
     last_added |-> q.last_added, last_user |-> q.last_user, first_incorrect |-> q.first_incorrect,
@@ -69,13 +74,20 @@ Next ==
   /\ l <= Len(Rec)
   /\ l' = l + 1
   /\ LET r == Rec[l]
-     IN IF r.a # "tick" \/ r.r = "skip" \/ drift # <<>>
+     IN IF r.a = "addonly" /\ r.r # "skip" /\ drift = <<>>
+        THEN \* add_local_input calls without advance_frame: results compared, accepted inputs stay pending
+             LET res == AddResults(st, r.in, 1)
+             IN /\ st' = AddAll(st, r.in, 1)
+                /\ drift' = IF res # r.add THEN <<r.n, {"add"}>> ELSE drift
+                /\ UNCHANGED <<cells, game, gcount>>
+        ELSE IF r.a # "tick" \/ r.r = "skip" \/ drift # <<>>
         THEN UNCHANGED <<st, cells, game, gcount, drift>>
         ELSE LET s1 == AddAll(st, r.in, 1)
                  a  == ST_Advance(s1, cells)
                  ex == IF a[2] = "ok" THEN Exec(cells, game, a[4], 1, <<>>, gcount) ELSE <<cells, game, <<>>, gcount>>
                  res == IF a[2] = "P" THEN "P:" \o a[1].err ELSE a[2]
                  bad == (IF res # r.r THEN {"result"} ELSE {})
+                        \cup (IF "add" \in DOMAIN r /\ AddResults(st, r.in, 1) # r.add THEN {"add"} ELSE {})
                         \cup (IF ex[3] # r.q THEN {"requests"} ELSE {})
                         \cup (IF a[2] = "E:MismatchedChecksum" /\ a[3] # r.mm THEN {"mismatched_frames"} ELSE {})
                         \cup (IF a[1].sl.cur # r.cur THEN {"current_frame"} ELSE {})
